@@ -1023,6 +1023,14 @@ class ReducedDensityMatrixPropagator(MatrixData, Saveable):
         #
         sysstep = self.RelaxationTensor.SystemBathInteraction.TimeAxis.step
         Nref_max = round(self.TimeAxis.step/sysstep)
+        # the propagation step has to be a whole multiple of the step on
+        # which the tensor is known (a rounded ratio of 0 would stop the time)
+        if (Nref_max < 1) or \
+           (abs(Nref_max*sysstep - self.TimeAxis.step) > 1.0e-6*sysstep):
+            raise Exception("The time step of the propagation ("
+                            +str(self.TimeAxis.step)+" fs) has to be a whole"
+                            +" multiple of the time step of the relaxation"
+                            +" tensor ("+str(sysstep)+" fs)")
         Nref_req = self.Nref
         
         if Nref_max % Nref_req == 0:
@@ -1226,6 +1234,14 @@ class ReducedDensityMatrixPropagator(MatrixData, Saveable):
         #
         sysstep = self.RelaxationTensor.SystemBathInteraction.TimeAxis.step
         Nref_max = round(self.TimeAxis.step/sysstep)
+        # the propagation step has to be a whole multiple of the step on
+        # which the tensor is known (a rounded ratio of 0 would stop the time)
+        if (Nref_max < 1) or \
+           (abs(Nref_max*sysstep - self.TimeAxis.step) > 1.0e-6*sysstep):
+            raise Exception("The time step of the propagation ("
+                            +str(self.TimeAxis.step)+" fs) has to be a whole"
+                            +" multiple of the time step of the relaxation"
+                            +" tensor ("+str(sysstep)+" fs)")
         Nref_req = self.Nref
         
         if Nref_max % Nref_req == 0:
@@ -1357,6 +1373,14 @@ class ReducedDensityMatrixPropagator(MatrixData, Saveable):
         #
         sysstep = self.RelaxationTensor.SystemBathInteraction.TimeAxis.step
         Nref_max = round(self.TimeAxis.step/sysstep)
+        # the propagation step has to be a whole multiple of the step on
+        # which the tensor is known (a rounded ratio of 0 would stop the time)
+        if (Nref_max < 1) or \
+           (abs(Nref_max*sysstep - self.TimeAxis.step) > 1.0e-6*sysstep):
+            raise Exception("The time step of the propagation ("
+                            +str(self.TimeAxis.step)+" fs) has to be a whole"
+                            +" multiple of the time step of the relaxation"
+                            +" tensor ("+str(sysstep)+" fs)")
         Nref_req = self.Nref
         
         if Nref_max % Nref_req == 0:
